@@ -60,7 +60,11 @@ pub(crate) fn verify_quote_for_storecost(
         return Err(Error::QuoteExpired(address.clone()));
     }
 
-    // check sig
+    // check sig: a quote of this node carries this node's public key (the key is part of what
+    // identifies a quote) and is signed by it
+    if quote.pub_key != network.get_pub_key() {
+        return Err(Error::InvalidQuoteSignature);
+    }
     let bytes = quote.bytes_for_sig();
     let signature = quote.signature;
     if !network.verify(&bytes, &signature) {
